@@ -5,7 +5,7 @@
 From Coq Require Import ZArith List Bool.
 Import ListNotations.
 From MemSafe Require Import Model Gen_Used Gen_Helpers ModelMem ModelWrites ModelDiv Spec
-  ProofsUsed ProofsFree ProofsDiv ProofsWrites.
+  ModelExec SpecExec ProofsUsed ProofsFree ProofsDiv ProofsWrites ProofsTotal ProofsExec.
 Open Scope Z_scope.
 
 (* Every allocation of every scope is released exactly once, in the same scope (hence on every path through it and in
@@ -72,3 +72,17 @@ Theorem C08_divmod_cir : forall rho sigma k k',
   correct rho sigma (comp_cir k') (keval rho sigma k).
 Proof. exact comp_cir_simplified_correct. Qed.
 Print Assumptions C08_divmod_cir.
+
+(* On well-formed input the modelled analysis raises none of its exceptions (no assertion of pop fails, no dictionary
+   chase diverges): the hypotheses `insert_frees p = Ok q` above are not vacuous. *)
+Theorem C08_total : forall p, wf_b p = true -> forallb rhs_ok_s p = true -> exists q, insert_frees p = Ok q.
+Proof. exact insert_frees_total. Qed.
+Print Assumptions C08_total.
+
+(* Per-instance certificate: if the executable checker accepts a statement list with its Frees (the harness runs it on
+   every real MemoryAnalysis output it exports), then on EVERY execution path — any branch, any trip count — no statement
+   touches an allocation that is not live, nothing is freed twice or re-allocated while live, no scope is left with a
+   block still allocated, and the procedure ends with nothing live. *)
+Theorem C08_exec_certificate : forall q, exec_safe_b q = true -> runs_clean q.
+Proof. exact exec_safe_sound. Qed.
+Print Assumptions C08_exec_certificate.
